@@ -103,6 +103,8 @@ RequestList::stall_initial() {
   m_queues.move_all_to(bucket_queued, bucket_stalled);
   queue_bucket_for_all_in_queue(m_queues, bucket_unordered, &Block::stalled);
   m_queues.move_all_to(bucket_unordered, bucket_stalled);
+
+  reset_process_unordered();
 }
 
 void
@@ -114,6 +116,8 @@ RequestList::stall_prolonged() {
   m_queues.move_all_to(bucket_queued, bucket_stalled);
   queue_bucket_for_all_in_queue(m_queues, bucket_unordered, &Block::stalled);
   m_queues.move_all_to(bucket_unordered, bucket_stalled);
+
+  reset_process_unordered();
 
   // Currently leave the the requests until the peer gets disconnected. (?)
 }
@@ -131,6 +135,8 @@ RequestList::choked() {
   m_queues.move_all_to(bucket_queued, bucket_choked);
   m_queues.move_all_to(bucket_unordered, bucket_choked);
   m_queues.move_all_to(bucket_stalled, bucket_choked);
+
+  reset_process_unordered();
 
   torrent::this_thread::scheduler()->update_wait_for_ceil_seconds(&m_delay_remove_choked, timeout_remove_choked);
 }
@@ -154,6 +160,15 @@ RequestList::unchoked() {
 void
 RequestList::delay_remove_choked() {
   m_queues.clear(bucket_choked);
+}
+
+// The unordered bucket was emptied wholesale (choke, stall): a timer armed for the old batch
+// must not release a later out-of-order batch early. prepare_process_unordered() arms a fresh
+// one for the next batch.
+void
+RequestList::reset_process_unordered() {
+  torrent::this_thread::scheduler()->erase(&m_delay_process_unordered);
+  m_last_unordered_position = 0;
 }
 
 void
